@@ -5,7 +5,7 @@
    crate's bucket function, load test and growth rule (Consts.v is regenerated from /repo). *)
 From Coq Require Import Arith NArith ZArith List Bool.
 Import ListNotations.
-From Cao Require Import Bits ProbeDefs HashMap HashMapProofs HashMapConsts HashMapInst.
+From Cao Require Import Bits ProbeDefs HashMap HashMapProofs HashMapConsts HashMapInst HashMapConserve.
 
 Notation CInv := (Inv fib_home64).
 Notation CLookup kq := (lookup kq fib_home64).
@@ -153,4 +153,38 @@ Example C12_nonvacuous :
               HGet _ 3%Z; HGet _ 2%Z; HLen _ _; HInsert 1%Z 11%N true; HGet _ 1%Z] in
   map fst (snd r) = [RHash _ _ 7%N; RHash _ _ 7%N; RHash _ _ 7%N; ROptV _ (Some 20%N);
                      ROptV _ (Some 30%N); ROptV _ None; RNat _ _ 2; RHash _ _ 7%N; ROptV _ (Some 11%N)].
+Proof. vm_compute. reflexivity. Qed.
+
+(* Conservation (drop exactly once), every history from a new map, allocation faults included:
+   the keys / values handed to the map ([given]: arguments of insert, the value written through
+   get_mut when the key is present, the key of entry and its value when it is inserted, the copies
+   a clone makes) are, as multisets, exactly the keys / values still stored plus those the map
+   dropped plus (values) those remove handed back.  Hence nothing is dropped twice, nothing stored
+   is lost or duplicated by growth, back-shift or replacement. *)
+Theorem C12_conservation :
+  forall (K V : Type) (keqb : K -> K -> bool) (hashfn : K -> N) (clone_k : K -> K) (clone_v : V -> V),
+    (forall a b, reflect (a = b) (keqb a b)) ->
+    forall (ops : list (hop K V)) (c : nat),
+      let '(m', _) := hm_run keqb hashfn fib_home64 cneeds_grow cnew_cap clone_k clone_v (hm_new K V c) ops in
+      let '(gs, ds, rs) := ledger keqb hashfn fib_home64 cneeds_grow cnew_cap clone_k clone_v (hm_new K V c) ops in
+      Permutation.Permutation (fst gs) (keys m' ++ fst ds) /\
+      Permutation.Permutation (snd gs) (vals m' ++ snd ds ++ rs).
+Proof. intros. apply history_conserves_new; auto using fib_home64_lt, cneeds_grow_lt, cnew_cap_gt. Qed.
+Print Assumptions C12_conservation.
+
+(* one operation, any state satisfying the invariant *)
+Theorem C12_step_conserves :
+  forall (K V : Type) (keqb : K -> K -> bool) (hashfn : K -> N) (clone_k : K -> K) (clone_v : V -> V),
+    (forall a b, reflect (a = b) (keqb a b)) ->
+    forall (m : hmap K V) (o : hop K V), CInv m ->
+      let '(m', out, d) := hm_step keqb hashfn fib_home64 cneeds_grow cnew_cap clone_k clone_v m o in
+      balanced m (given keqb hashfn fib_home64 cneeds_grow cnew_cap clone_k clone_v m o out) m' d (returned o out).
+Proof. intros. apply step_conserves; auto using fib_home64_lt, cneeds_grow_lt, cnew_cap_gt. Qed.
+Print Assumptions C12_step_conserves.
+
+Example C12_conservation_nonvacuous :
+  let ops := [HInsert 1%Z 10%N true; HInsert 2%Z 20%N true; HInsert 1%Z 11%N true; HRemove _ 2%Z;
+              HEntryIns 3%Z 30%N true; HGetMutSet 3%Z 31%N; HClear _ _] in
+  ledger Z.eqb (fun _ => 7%N) fib_home64 cneeds_grow cnew_cap (fun k => k) (fun v => v) (hm_new Z N 0) ops
+  = (([1; 2; 1; 3]%Z, [10; 20; 11; 30; 31]%N), ([1; 2; 1; 3]%Z, [10; 30; 11; 31]%N), [20%N]).
 Proof. vm_compute. reflexivity. Qed.
